@@ -2,11 +2,11 @@
    and followed by Print Assumptions.
 
    Reading guide.  [run_plain s] is the response of handler script [s] without the gzip directive
-   (the identity run); [gzip_serve sl dexts cs cfgs path ae s] is the response of the same script
+   (the identity run); [gzip_serve dexts cs cfgs path ae s] is the response of the same script
    below the gzip middleware configured with blocks [cfgs], for request path [path] and
-   Accept-Encoding [ae]; [sl]/[dexts]/[prio] are the tables of the Go source (skip list, default
-   extensions, sibling priority) — every theorem holds for ALL tables, the check instantiates
-   them with the lists regenerated from the Go AST.  The compressor is any pair [gz]/[gunzip]
+   Accept-Encoding [ae]; [dexts]/[prio] are the tables of the Go source (default extensions,
+   sibling priority) — every theorem holds for ALL tables unless it names the regenerated lists
+   (Gen_C18.v), with which the check instantiates them.  The compressor is any pair [gz]/[gunzip]
    with gunzip (gz ws) = Some (concat ws) (a premise, not an axiom).  [wb s]: the handler sets
    headers, then calls WriteHeader at most once before its first Write/Flush, then only writes
    and flushes (any number, any chunking, any payload). *)
@@ -16,36 +16,35 @@ Local Open Scope string_scope.
 
 (* ---- 1. the decoded body equals the identity body; Content-Encoding names what was applied ---- *)
 
-(* For EVERY config list, request, Accept-Encoding, status, header set and write/flush pattern of
-   a well-behaved handler whose response is unencoded or encoded with a coding of the skip list:
+(* For EVERY config list, request, Accept-Encoding, status, header set (ANY Content-Encoding the
+   handler may have set, in any spelling) and write/flush pattern of a well-behaved handler:
    same status, and either the representation is untouched or exactly one gzip layer was added
    to an unencoded body, is named by Content-Encoding, and gunzips to the identity body. *)
 Theorem C18_gzip_transparent_partial :
   forall (gz : list bytes -> bytes) (gunzip : bytes -> option bytes),
   (forall ws, gunzip (gz ws) = Some (concat ws)) ->
-  forall sl dexts cs cfgs path ae head s,
+  forall dexts cs cfgs path ae head s,
   wb s = true ->
-  (r_ce (run_plain s) = [] \/ exists c, r_ce (run_plain s) = [c] /\ In c sl) ->
-  transparent gz gunzip head (gzip_serve sl dexts cs cfgs path ae s) (run_plain s).
-Proof. intros gz gunzip Hrt sl dexts. exact (gzip_transparent sl dexts gz gunzip Hrt). Qed.
+  transparent gz gunzip head (gzip_serve dexts cs cfgs path ae s) (run_plain s).
+Proof. intros gz gunzip Hrt dexts. exact (gzip_transparent dexts gz gunzip Hrt). Qed.
 Print Assumptions C18_gzip_transparent_partial.
 
 Example C18_gzip_transparent_nonvacuous :
   let s := [OSet K_CT (bs "text/plain"); OSet K_CL (bs "3"); OWrite [1]; OFlush; OWrite [2; 3]] in
-  wb s = true /\ r_ce (run_plain s) = [] /\
-  r_segs (gzip_serve skip_snapshot [[]] false [bare] (bs "/x") (bs "gzip") s) = [SG [[1]; [2; 3]]] /\
-  r_cl (gzip_serve skip_snapshot [[]] false [bare] (bs "/x") (bs "gzip") s) = [].
+  wb s = true /\
+  r_segs (gzip_serve [[]] false [bare] (bs "/x") (bs "gzip") s) = [SG [[1]; [2; 3]]] /\
+  r_cl (gzip_serve [[]] false [bare] (bs "/x") (bs "gzip") s) = [].
 Proof. vm_compute. repeat split; reflexivity. Qed.
 
 (* the same in the client's terms: what a client that honours Content-Encoding decodes is the
-   identity body, for every unencoded inner response *)
+   identity body, for every unencoded inner response (no Content-Encoding, or "identity") *)
 Theorem C18_client_decodes_identity_body :
   forall (gz : list bytes -> bytes) (gunzip : bytes -> option bytes),
   (forall ws, gunzip (gz ws) = Some (concat ws)) ->
-  forall sl dexts cs cfgs path ae head s,
-  wb s = true -> r_ce (run_plain s) = [] ->
-  client_body gz gunzip head (gzip_serve sl dexts cs cfgs path ae s) = Some (wire gz head (run_plain s)).
-Proof. intros gz gunzip Hrt sl dexts. exact (client_view sl dexts gz gunzip Hrt). Qed.
+  forall dexts cs cfgs path ae head s,
+  wb s = true -> no_coding (r_ce (run_plain s)) = true ->
+  client_body gz gunzip head (gzip_serve dexts cs cfgs path ae s) = Some (wire gz head (run_plain s)).
+Proof. intros gz gunzip Hrt dexts. exact (client_view dexts gz gunzip Hrt). Qed.
 Print Assumptions C18_client_decodes_identity_body.
 
 (* The statement without the restriction to well-behaved handlers is false of the code. *)
@@ -53,7 +52,7 @@ Print Assumptions C18_client_decodes_identity_body.
    headers without Content-Encoding, the body is compressed all the same *)
 Theorem C18_flush_before_header_refuted :
   exists cfgs path ae s,
-  let out := gzip_serve skip_snapshot [[]; bs ".txt"] false cfgs path ae s in
+  let out := gzip_serve [[]; bs ".txt"] false cfgs path ae s in
   r_ce (run_plain s) = [] /\ applied out = [GZIP] /\ r_ce out = [] /\
   forall gz, wire gz false out = gz [[1; 2; 3]] /\ wire gz false (run_plain s) = [1; 2; 3].
 Proof. exists [bare], (bs "/x"), (bs "gzip"), [OFlush; OWrite [1; 2; 3]]. exact flush_first_witness. Qed.
@@ -63,7 +62,7 @@ Print Assumptions C18_flush_before_header_refuted.
    and switch compression off: plain bytes (plus an empty gzip stream) under a gzip label *)
 Theorem C18_repeated_writeheader_refuted :
   exists cfgs path ae s,
-  let out := gzip_serve skip_snapshot [[]; bs ".txt"] false cfgs path ae s in
+  let out := gzip_serve [[]; bs ".txt"] false cfgs path ae s in
   r_ce out = [GZIP] /\ r_segs out = [SP [1; 2; 3]; SG []].
 Proof.
   exists [bare], (bs "/x"), (bs "gzip"), [OWriteHeader 200; OWriteHeader 200; OWrite [1; 2; 3]].
@@ -71,38 +70,36 @@ Proof.
 Qed.
 Print Assumptions C18_repeated_writeheader_refuted.
 
+(* Content-Encoding names exactly the codings applied: untouched when the layer applied none,
+   otherwise the inner response named no coding and the header names gzip alone *)
 Theorem C18_content_encoding_exact_partial :
-  forall sl dexts cs cfgs path ae s,
+  forall dexts cs cfgs path ae s,
   wb s = true ->
-  (r_ce (run_plain s) = [] \/ exists c, r_ce (run_plain s) = [c] /\ In c sl) ->
-  let out := gzip_serve sl dexts cs cfgs path ae s in
-  r_ce out = r_ce (run_plain s) ++ applied out.
+  let out := gzip_serve dexts cs cfgs path ae s in
+  (applied out = [] -> r_ce out = r_ce (run_plain s)) /\
+  codings (r_ce out) = codings (r_ce (run_plain s)) ++ applied out.
 Proof. exact ce_exact. Qed.
 Print Assumptions C18_content_encoding_exact_partial.
 
 (* ---- 2. already-encoded responses are not encoded again ---- *)
 
-(* with a coding of the skip list the response is not touched at all (headers included) *)
-Theorem C18_not_double_encoded_partial :
-  forall sl dexts cs cfgs path ae s c,
-  wb s = true -> r_ce (run_plain s) = [c] -> In c sl ->
-  gzip_serve sl dexts cs cfgs path ae s = run_plain s.
+(* whatever the Content-Encoding of the inner response says — any value other than "" and
+   "identity": listed or unlisted coding, x-gzip, GZIP, "br, gzip", several header lines — the
+   response is not touched at all (headers included) *)
+Theorem C18_not_double_encoded :
+  forall dexts cs cfgs path ae s,
+  wb s = true -> no_coding (r_ce (run_plain s)) = false ->
+  gzip_serve dexts cs cfgs path ae s = run_plain s.
 Proof. exact not_double_encoded. Qed.
-Print Assumptions C18_not_double_encoded_partial.
+Print Assumptions C18_not_double_encoded.
 
-(* every coding the file server can emit (sibling priority list of the current sources) is left
-   alone by the skip list of the current sources: zstd included *)
-Theorem C18_not_double_encoded_fileserver_codings :
-  forall dexts cs cfgs path ae s c,
-  wb s = true -> r_ce (run_plain s) = [c] -> In c (map fst gen_c18_static_priority) ->
-  gzip_serve gen_c18_skip dexts cs cfgs path ae s = run_plain s.
-Proof. exact not_double_encoded_fileserver_codings. Qed.
-Print Assumptions C18_not_double_encoded_fileserver_codings.
-
-Example C18_not_double_encoded_fileserver_codings_nonvacuous :
-  let s := [OSet K_CE (bs "zstd"); OWrite [1; 2; 3]] in
-  wb s = true /\ r_ce (run_plain s) = [bs "zstd"] /\ In (bs "zstd") (map fst gen_c18_static_priority).
-Proof. vm_compute. repeat split; auto. Qed.
+Example C18_not_double_encoded_nonvacuous :
+  forallb (fun ce => let s := [OSet K_CE ce; OWrite [1; 2; 3]] in
+                     wb s && negb (no_coding (r_ce (run_plain s))))
+          [bs "zstd"; bs "x-gzip"; bs "GZIP"; bs "br, gzip"; bs "gzip"; bs "Identity"] = true /\
+  (let s := [OAdd K_CE (bs "identity"); OAdd K_CE (bs "br"); OWrite [1]] in
+   wb s = true /\ no_coding (r_ce (run_plain s)) = false).
+Proof. vm_compute. repeat split; reflexivity. Qed.
 
 (* precompressed siblings: the file server picks the first coding of its priority list that the
    client listed verbatim and whose sibling exists ... *)
@@ -124,13 +121,13 @@ Theorem C18_static_no_sibling_when_none_eligible :
 Proof. exact select_sibling_none. Qed.
 Print Assumptions C18_static_no_sibling_when_none_eligible.
 
-(* ... and whichever sibling it picks goes out exactly as without gzip (tables of the current
-   sources: every coding of the priority list is on the skip list) *)
+(* ... and whichever sibling it picks goes out exactly as without gzip (priority list of the
+   current sources: each of its names is a coding, none is "" or "identity") *)
 Theorem C18_static_sibling_not_reencoded :
   forall dexts cs cfgs path ae head data sibs name ext,
   select_sibling gen_c18_static_priority ae
     (fun e => match sib_data sibs e with Some _ => true | None => false end) = Some (name, ext) ->
-  gzip_serve gen_c18_skip dexts cs cfgs path ae (static_script gen_c18_static_priority head ae data sibs) =
+  gzip_serve dexts cs cfgs path ae (static_script gen_c18_static_priority head ae data sibs) =
   run_plain (static_script gen_c18_static_priority head ae data sibs).
 Proof. exact static_sibling_not_reencoded_full. Qed.
 Print Assumptions C18_static_sibling_not_reencoded.
@@ -143,20 +140,20 @@ Proof. vm_compute. reflexivity. Qed.
 
 (* a file without eligible sibling: the client decodes the file's bytes, whatever gzip decides *)
 Theorem C18_static_plain_file_transparent :
-  forall sl dexts prio (gz : list bytes -> bytes) (gunzip : bytes -> option bytes),
+  forall dexts prio (gz : list bytes -> bytes) (gunzip : bytes -> option bytes),
   (forall ws, gunzip (gz ws) = Some (concat ws)) ->
   forall cs cfgs path ae head data sibs,
   select_sibling prio ae (fun e => match sib_data sibs e with Some _ => true | None => false end) = None ->
-  client_body gz gunzip head (gzip_serve sl dexts cs cfgs path ae (static_script prio head ae data sibs))
+  client_body gz gunzip head (gzip_serve dexts cs cfgs path ae (static_script prio head ae data sibs))
   = Some (if bodyless head 200 then [] else data).
 Proof. exact static_plain_transparent. Qed.
 Print Assumptions C18_static_plain_file_transparent.
 
 (* ---- 3. Content-Length is absent or correct ---- *)
 Theorem C18_content_length_absent_or_correct :
-  forall sl dexts (gz : list bytes -> bytes) cs cfgs path ae head s,
+  forall dexts (gz : list bytes -> bytes) cs cfgs path ae head s,
   wb s = true -> cl_correct gz head (run_plain s) ->
-  cl_correct gz head (gzip_serve sl dexts cs cfgs path ae s).
+  cl_correct gz head (gzip_serve dexts cs cfgs path ae s).
 Proof. exact content_length_ok. Qed.
 Print Assumptions C18_content_length_absent_or_correct.
 
@@ -168,8 +165,8 @@ Proof. vm_compute. repeat split; reflexivity. Qed.
 (* static files (GET): the header, if still there, is FormatInt of the number of bytes sent —
    whichever sibling was picked and whatever gzip decided *)
 Theorem C18_static_content_length_correct :
-  forall sl dexts prio (gz : list bytes -> bytes) cs cfgs path ae data sibs,
-  let out := gzip_serve sl dexts cs cfgs path ae (static_script prio false ae data sibs) in
+  forall dexts prio (gz : list bytes -> bytes) cs cfgs path ae data sibs,
+  let out := gzip_serve dexts cs cfgs path ae (static_script prio false ae data sibs) in
   r_cl out = [] \/ r_cl out = [decimal (N.of_nat (length (wire gz false out)))].
 Proof. exact static_content_length. Qed.
 Print Assumptions C18_static_content_length_correct.
@@ -182,8 +179,8 @@ Proof. vm_compute. reflexivity. Qed.
 (* ---- 4. clients that did not offer gzip get the identity response ---- *)
 (* true as the code reads the header (substring test), for every handler whatsoever *)
 Theorem C18_identity_when_not_offered_partial :
-  forall sl dexts cs cfgs path ae s,
-  contains ae GZIP = false -> gzip_serve sl dexts cs cfgs path ae s = run_plain s.
+  forall dexts cs cfgs path ae s,
+  contains ae GZIP = false -> gzip_serve dexts cs cfgs path ae s = run_plain s.
 Proof. exact identity_when_no_gzip_substring. Qed.
 Print Assumptions C18_identity_when_not_offered_partial.
 
@@ -191,31 +188,31 @@ Print Assumptions C18_identity_when_not_offered_partial.
 Theorem C18_identity_when_not_offered_refuted :
   exists cfgs path ae s,
   offers_gzip ae = false /\ wb s = true /\
-  applied (gzip_serve skip_snapshot [[]; bs ".txt"] false cfgs path ae s) = [GZIP].
+  applied (gzip_serve [[]; bs ".txt"] false cfgs path ae s) = [GZIP].
 Proof. exists [bare], (bs "/x"), (bs "gzip;q=0"), [OWrite [1; 2; 3]]. exact q0_witness. Qed.
 Print Assumptions C18_identity_when_not_offered_refuted.
 
 (* ---- 5. request filters, min_length, header rewriting, liveness ---- *)
 Theorem C18_excluded_request_identity :
-  forall sl dexts cs cfgs path ae s,
+  forall dexts cs cfgs path ae s,
   (forall c, In c cfgs -> req_ok dexts cs path c = false) ->
-  gzip_serve sl dexts cs cfgs path ae s = run_plain s.
+  gzip_serve dexts cs cfgs path ae s = run_plain s.
 Proof. exact excluded_identity. Qed.
 Print Assumptions C18_excluded_request_identity.
 
 Theorem C18_min_length_respected :
-  forall sl dexts cs cfgs path ae s c,
+  forall dexts cs cfgs path ae s c,
   wb s = true -> find (req_ok dexts cs path) cfgs = Some c -> c_min c <> 0%Z ->
   (r_cl (run_plain s) = [] \/
    exists v r, r_cl (run_plain s) = v :: r /\ forall n, parse_int v = Some n -> (n < c_min c)%Z) ->
-  gzip_serve sl dexts cs cfgs path ae s = run_plain s.
+  gzip_serve dexts cs cfgs path ae s = run_plain s.
 Proof. exact min_length_respected. Qed.
 Print Assumptions C18_min_length_respected.
 
 Theorem C18_compressed_response_headers :
-  forall sl dexts cs cfgs path ae s,
+  forall dexts cs cfgs path ae s,
   wb s = true ->
-  let out := gzip_serve sl dexts cs cfgs path ae s in
+  let out := gzip_serve dexts cs cfgs path ae s in
   applied out = [GZIP] ->
   r_ce out = [GZIP] /\ r_cl out = [] /\ In V_AE (hvals (r_hdr out) K_VARY) /\
   hget (r_hdr out) K_ETAG = weak_of (hget (r_hdr (run_plain s)) K_ETAG).
@@ -223,10 +220,10 @@ Proof. exact compressed_headers. Qed.
 Print Assumptions C18_compressed_response_headers.
 
 Theorem C18_compresses_when_eligible :
-  forall sl dexts cs cfgs path ae s c,
+  forall dexts cs cfgs path ae s c,
   wb s = true -> forallb is_hdr s = false ->
   contains ae GZIP = true -> find (req_ok dexts cs path) cfgs = Some c ->
-  resp_ok sl c (r_hdr (run_plain s)) = true ->
-  applied (gzip_serve sl dexts cs cfgs path ae s) = [GZIP].
+  resp_ok c (r_hdr (run_plain s)) = true ->
+  applied (gzip_serve dexts cs cfgs path ae s) = [GZIP].
 Proof. exact compresses_when_eligible. Qed.
 Print Assumptions C18_compresses_when_eligible.
